@@ -36,15 +36,15 @@ theorem appended_allAdd (t : Table) (col : Column) (h : t.AllAdd) (hc : col.acti
   · rw [List.mem_singleton.mp h1]; exact hc
 
 /-- `AddColumn` of a fresh name: the general shape -/
-theorem addColumn_fresh_eq (t : Table) (col : Column) (mysql : Bool) (hg : t.colIdx.get? col.name = none) :
-    t.addColumn col mysql = (t.appended col).positionStep col.name t.cols.length := by
+theorem addColumn_fresh_eq (t : Table) (col : Column) (mysql : Bool) {pg : Bool} (hg : t.colIdx.get? col.name = none) :
+    t.addColumn col mysql pg = (t.appended col).positionStep col.name t.cols.length := by
   unfold addColumn
   rw [hg]
   rfl
 
 /-- fresh name, no pending position: appended at the end -/
-theorem addColumn_append (t : Table) (col : Column) (mysql : Bool) (hg : t.colIdx.get? col.name = none)
-    (hp : t.pendingPos = none) : t.addColumn col mysql = .ok (t.appended col) := by
+theorem addColumn_append (t : Table) (col : Column) (mysql : Bool) {pg : Bool} (hg : t.colIdx.get? col.name = none)
+    (hp : t.pendingPos = none) : t.addColumn col mysql pg = .ok (t.appended col) := by
   rw [addColumn_fresh_eq t col mysql hg]
   unfold positionStep
   have : (t.appended col).pendingPos = none := hp
@@ -212,6 +212,53 @@ theorem pkSwap_perm (l : List Opt) : (pkSwap l).Perm l := by
           (l.dropLast[i] :: last :: l.dropLast.drop (i + 1)) :=
         List.Perm.cons _ (List.perm_append_singleton _ _)
       exact h1.trans ((List.Perm.swap _ _ _).trans h2.symm)
+
+/-- the same for the Postgres glue (`mysql = false`, `pg = true`): the merged column takes the incoming type when there
+    is one, keeps its own otherwise, and the incoming options are appended -/
+theorem addColumn_merge_pg (t : Table) (col : Column) (h : t.Inv) (ha : t.AllAdd) (id : Nat)
+    (hg : t.colIdx.get? col.name = some id) :
+    ∃ t', t.addColumn col false true = .ok t' ∧ t'.colNames = t.colNames ∧ t'.AllAdd ∧ t'.pendingPos = t.pendingPos ∧
+      (∀ x ∈ t'.cols, (x ∈ t.cols ∧ x.name ≠ col.name) ∨
+        (x.name = col.name ∧ ∃ old ∈ t.cols, old.name = col.name ∧
+          x.cur.typ = col.cur.typ.orElse (fun _ => old.cur.typ) ∧ x.cur.opts = pkSwap (old.cur.opts ++ col.cur.opts))) := by
+  unfold addColumn
+  rw [hg]
+  simp only
+  have hlt := col_lt h hg
+  rw [getIdx_of_lt _ _ _ hlt]
+  have hact : (t.cols[id]).action = .add := ha _ (List.getElem_mem hlt)
+  have hne : ((t.cols[id]).action != .add) = false := by rw [hact]; rfl
+  simp only [bind, Except.bind, hne, Bool.false_eq_true, if_false, pure, Except.pure]
+  have hnm : (t.cols[id]).name = col.name := by
+    have := (h.cols.get col.name id).mp hg
+    simpa [colNames, List.getElem?_eq_getElem hlt] using this
+  refine ⟨_, rfl, ?_, ?_, rfl, ?_⟩
+  · show List.map (fun x : Column => x.name) (t.cols.set id _) = _
+    exact map_set_same (fun x : Column => x.name) t.cols id (t.cols[id]) _ (List.getElem?_eq_getElem hlt) rfl
+  · intro c hc
+    have hc : c ∈ t.cols.set id _ := hc
+    rcases List.mem_or_eq_of_mem_set hc with h1 | h1
+    · exact ha c h1
+    · rw [h1]; exact hact
+  · intro x hx
+    have hx : x ∈ t.cols.set id _ := hx
+    obtain ⟨j, hj⟩ := List.mem_iff_getElem?.mp hx
+    rw [List.getElem?_set] at hj
+    by_cases hij : id = j
+    · rw [if_pos hij, if_pos hlt] at hj
+      right
+      rw [← Option.some.inj hj]
+      refine ⟨hnm, t.cols[id], List.getElem_mem hlt, hnm, ?_, ?_⟩
+      · simp
+      · simp
+    · rw [if_neg hij] at hj
+      left
+      refine ⟨List.mem_of_getElem? hj, ?_⟩
+      intro hxn
+      have h1 : t.colNames[j]? = some col.name := by simp [colNames, hj, hxn]
+      have h2 : t.colNames[id]? = some col.name := (h.cols.get col.name id).mp hg
+      have hltN : id < t.colNames.length := by simpa [colNames] using hlt
+      exact hij ((List.getElem?_inj hltN h.cols.nodup).mp (h2.trans h1.symm))
 
 /-- an existing live column (`add`): `AddColumn` merges into it, the names do not change -/
 theorem addColumn_merge (t : Table) (col : Column) (mysql : Bool) (h : t.Inv) (ha : t.AllAdd) (id : Nat)
